@@ -139,7 +139,8 @@ def value_attr(I, v, name):
             n = v.len
             b = I.ctx.fresh_bool("is_monotonic")
             from .spec import ForAll
-            I.ctx.assume(b == to_z3(ForAll(lambda i: ops.scalar_cmp("LtE", v.fn(i), v.fn(i + 1)), 0, simp(to_z3(n) - 1))))
+            from .spec import ForAll2
+            I.ctx.assume(b == to_z3(ForAll2(lambda i, j: ops.scalar_cmp("LtE", v.fn(i), v.fn(j)), 0, n)))
             return b
         if name == "freqstr" and v.kind in INDEX_KINDS:
             return None
@@ -470,12 +471,28 @@ def make_range(I, start, stop, step, kind):
             raise exc("ValueError")
         if not ctx.entails(step > 0):
             raise Undecided("range step of unknown sign")
-    # n = ceil((stop-start)/step) if stop > start else 0:  (n-1)*step < stop-start <= n*step
+    n = range_len(I, start, stop, step)
+    s3 = to_z3(step)
+    return SArr((n,), lambda i: simp(to_z3(start) + to_z3(i) * s3), "int", kind, closed=(start, step))
+
+
+def range_len(I, start, stop, step):
+    """len(range(start, stop, step)) for step >= 1: n = ceil((stop-start)/step) if stop > start else 0,
+    characterised by (n-1)*step < stop-start <= n*step.  Memoised per path on the three terms so that code
+    and specification talk about the same length."""
+    ctx = I.ctx
+    if not is_sym(step) and step == 1:
+        return simp(z3.If(to_z3(stop) - to_z3(start) > 0, to_z3(stop) - to_z3(start), 0))
+    key = ("rlen", str(simp(to_z3(start))), str(simp(to_z3(stop))), str(simp(to_z3(step))))
+    memo = ctx.__dict__.setdefault("memo", {})
+    if key in memo:
+        return memo[key]
     n = ctx.fresh_int("rlen")
     d = simp(to_z3(stop) - to_z3(start))
     s3 = to_z3(step)
     ctx.assume(z3.If(d > 0, z3.And(n >= 1, (n - 1) * s3 < d, d <= n * s3), n == 0))
-    return SArr((n,), lambda i: simp(to_z3(start) + to_z3(i) * s3), "int", kind, closed=(start, step))
+    memo[key] = n
+    return n
 
 
 @lib("builtins.int")
